@@ -183,6 +183,13 @@ def run(tier, seed):
             if o[0] not in PACKAGED: continue
             scripts.append([conv_line("d_data", d, o), conv_line("d_conv", d, html), conv_line("e_data", d, o), conv_line("s_conv", d, html)])
             scripts.append([line("e_new", 0, d, o[1], docs.LANG[o[2]]), line("e_data", 0, docs.FMT[o[0]]), line("e_conv", 0, docs.FMT["html"]), line("e_data", 0, docs.FMT[o[0]]), line("e_free", 0)])
+    # every ordered pair of pool documents through one reused engine (the simulation above only samples these): what the first document leaves behind
+    # (language, quote style, note counters, metadata) must not reach the second
+    for d1 in dn:
+        for d2 in dn:
+            for o in (OPTS[0], OPTS[2], OPTS[6], OPTS[7]) if tier == "quick" else OPTS[:9]:
+                scripts.append([line("e_new", 0, d1, o[1], docs.LANG[o[2]]), line("e_conv", 0, docs.FMT[o[0]]), line("e_settext", 0, d2), line("e_conv", 0, docs.FMT[o[0]]),
+                                line("e_data", 0, docs.FMT[o[0]]), line("e_free", 0)])
     refs = sorted({(s, o) for s in dn for o in allopts}, key=str)
     problems, trace = run_session(chk, exe, dpool, refs, scripts, "pool")
     nconv = len([e for e in trace if e["e"] == "conv"])
